@@ -1179,6 +1179,48 @@ theorem C10_index_equals_eager_mixed_partial (ops : FloatOps F) (lex : LexCfg) (
     | complex r g => simp [Function.comp, anyEntry, crecEntry, AnyRec.item, finCInst, mkCInst, CRec.id]
   · rw [hcr]; simp
 
+/-- what `STEPread` is handed for a record of either mapping: the parameter list of an internally mapped record, the whole
+    `( PART(…) … )` of an externally mapped one, each followed by `s4 ;` and the rest of the file -/
+def stepText : AnyRec F → Bytes → Bytes
+  | .simple rg, rest => '(' :: (cs (renderParams rg.1.ps) ++ (cs rg.1.s4 ++ (';' :: rest)))
+  | .complex r _, rest => '(' :: (cs (renderCParts r.parts) ++ (')' :: (cs r.s4 ++ (';' :: rest))))
+
+/-- **`loadInstance` at the recorded offsets, sections of both mappings** (`_partial`): for every file of
+    `C10_index_equals_eager_mixed_partial` the scanner records one offset per record, and from each `getRealInstance`'s positioning
+    hands `STEPread` the record's parameter list (internally mapped: `SDAI_Application_instance::STEPread`) or its whole parenthesised
+    part list (externally mapped: `STEPcomplex::STEPread`) — `stepText`.  Exclusions as there. -/
+theorem C10_materialise_at_recorded_offsets_mixed_partial (ops : FloatOps F) (lex : LexCfg) (cfg : RWCfg) (d : Dict)
+    (rs : List (AnyRec F)) (g0 sp tail : List Nat) (hg0 : Seps g0)
+    (hrec : ∀ r ∈ rs, AnyRecCovered { ops := ops, lex := lex, cfg := cfg, dict := d,
+                                       lookup := Mgr.lookup d ({ insts := rs.map (fun r => (r.item d).mkI) } : Mgr F) } r)
+    (hraw : commentsRaw = true)
+    (hlz : ∀ r ∈ rs, LazySideAny { ops := ops, lex := lex, cfg := cfg, dict := d,
+                                    lookup := Mgr.lookup d ({ insts := rs.map (fun r => (r.item d).mkI) } : Mgr F) } r)
+    (hs0 : Small g0) (f : Nat)
+    (hf : 6 * (g0 ++ renderItems (rs.map (AnyRec.item d)) (RLemmas.endsec sp tail)).length + 30 ≤ f) :
+    ∃ offs, scanBegins (cs (g0 ++ renderItems (rs.map (AnyRec.item d)) (RLemmas.endsec sp tail))) = .ok offs ∧
+      offs.length = rs.length ∧
+      All2 (fun off a => ∃ rest, stepReadInput f ((cs (g0 ++ renderItems (rs.map (AnyRec.item d)) (RLemmas.endsec sp tail))).drop off) =
+        .ok (stepText a rest)) offs rs := by
+  have hany : ∀ a ∈ rs, LazyAny a := fun a ha => lazyAny_of_covered _ a (hrec a ha) (hlz a ha)
+  obtain ⟨offs, h1, h2⟩ := scanBegins_items hraw d rs hany g0 sp tail hg0 hs0
+  refine ⟨offs, h1, h2.length_eq, h2.imp_mem ?_⟩
+  intro off a ha hb
+  obtain ⟨_, lead, rest, hl1, hl2, hd⟩ := hb
+  refine ⟨rest, ?_⟩
+  simp only [Nat.sub_zero] at hd
+  rw [hd]
+  have hlen : (anyText lead a rest).length ≤ (cs (g0 ++ renderItems (rs.map (AnyRec.item d)) (RLemmas.endsec sp tail))).length := by
+    rw [← hd, List.length_drop]; omega
+  rw [cs_length] at hlen
+  cases a with
+  | simple rg =>
+    obtain ⟨hlex, hlr, _, _⟩ : rg.1.Lex ∧ LazyRec rg.1 ∧ Seps rg.2 ∧ Small rg.2 := hany _ ha
+    exact stepReadInput_lrec hraw lead hl1 hl2 rg.1 hlex hlr rest f (by simp only [anyText] at hlen; omega)
+  | complex r g =>
+    obtain ⟨hlex, hlr, _, _⟩ : r.Lex ∧ LazyCRec r (crefs r) ∧ Seps g ∧ Small g := hany _ ha
+    exact stepReadInput_crec hraw lead hl1 hl2 r hlex _ hlr rest f (by simp only [anyText] at hlen; omega)
+
 /-! ### the hypotheses of the bridge theorem are satisfiable: a concrete file, every hypothesis discharged -/
 
 namespace Inst
